@@ -29,7 +29,7 @@ PLAN = {"quick": dict(programs=4000, values=3, depth=3), "thorough": dict(progra
 FLOORS = {"quick": {"unmarshal_nodes_compared": 70000, "marshal_nodes_compared": 70000, "exception_parity_checked": 100000, "shape_sets_compared": 30000,
                     "same_name_two_modules": 800, "builds_watched_for_warnings": 6000},
           "thorough": {"unmarshal_nodes_compared": 1500000, "marshal_nodes_compared": 1500000, "exception_parity_checked": 600000,
-                       "shape_sets_compared": 150000, "same_name_two_modules": 8000, "builds_watched_for_warnings": 80000}}
+                       "shape_sets_compared": 150000, "same_name_two_modules": 8000, "builds_watched_for_warnings": 55000}}
 COMPOSITE = ("coll", "fixed", "mapping", "struct")
 
 
